@@ -277,6 +277,7 @@ func runStoreProp(prop, tier string, r *rng) {
 		parFailCase(prop, 20, 21, 15, 5, false) // whole-chain range
 		parFailCase(prop, 40, 31, 12, 4, true)  // a single refusing height: other workers carry on above it
 		parFailCase(prop, 30, 30, 3, 3, true)
+		parFailCase(prop, 20, 21, 10, 4, true) // whole chain, a single refusing height: the head's handlers succeed in round 1
 	}
 	for i := 0; i < n; i++ {
 		genStoreCase(prop, r, tier)
